@@ -328,6 +328,7 @@ outerReadLoop:
 			// This routine is the only one that sends to clientInputs once
 			// the stream is set up, so it is the one that closes it.
 			defer close(clientInputs)
+			defer verifC15Point("reader-close-inputs", nil)
 			for {
 				// Listen for incoming messages to know if the client wants to
 				// close the stream. If this is an error, we assume the client
@@ -338,6 +339,7 @@ outerReadLoop:
 					close(closing)
 					return
 				}
+				verifC15Point("reader-forward", buf)
 				select {
 				case clientInputs <- buf:
 				case <-leaving:
@@ -355,6 +357,7 @@ outerReadLoop:
 					ws.WriteControl(websocket.CloseMessage,
 						websocket.FormatCloseMessage(websocket.CloseNormalClosure, "service finished streaming"),
 						time.Now().Add(time.Millisecond*500))
+					verifC15Point("writer-leave", nil)
 					close(leaving)
 					return
 				}
@@ -364,6 +367,7 @@ outerReadLoop:
 				if err != nil {
 					log.Error(xerrors.Errorf("failed to set the write "+
 						"deadline in the streaming loop: %v", err))
+					verifC15Point("writer-leave", nil)
 					close(leaving)
 					break outerReadLoop
 				}
@@ -372,6 +376,7 @@ outerReadLoop:
 				if err != nil {
 					log.Error(xerrors.Errorf("failed to write next message "+
 						"in the streaming loop: %v", err))
+					verifC15Point("writer-leave", nil)
 					close(leaving)
 					break outerReadLoop
 				}
